@@ -77,7 +77,17 @@ pub fn run_one(t: &[u64], rt: &tokio::runtime::Runtime, st: &mut Stats) {
     let body = response();
     let done = Arc::new(std::sync::atomic::AtomicBool::new(false));
     let done2 = done.clone();
-    let server = std::thread::spawn(move || l2.accept_until(Duration::from_secs(10), &done2).map(|s| serve_plain(s, &Script::ok(body))));
+    let server = std::thread::spawn(move || {
+        let first = l2.accept_until(Duration::from_secs(10), &done2).map(|s| serve_plain(s, &Script::ok(body)));
+        let mut extra = 0usize;
+        if first.is_some() {
+            while let Some(s) = l2.accept_until(Duration::from_secs(60), &done2) {
+                extra += 1;
+                drop(s);
+            }
+        }
+        (first, extra)
+    });
     let mut uri = format!("{}://", scheme);
     if let Some(u) = ui {
         uri.push_str(u);
@@ -96,8 +106,8 @@ pub fn run_one(t: &[u64], rt: &tokio::runtime::Runtime, st: &mut Stats) {
     }
     let result = send(kind, rt, &uri, &cfg, build_ipp(&request()));
     done.store(true, std::sync::atomic::Ordering::SeqCst);
-    let ex = server.join().ok().flatten();
-    let extra = l.pending();
+    let (ex, extra_seen) = server.join().unwrap_or((None, 0));
+    let extra = extra_seen + l.pending();
     let who = kind.name();
     let want_target = format!("{}{}", if path.is_empty() { "/" } else { path }, query.map(|q| format!("?{}", q)).unwrap_or_default());
     let want_host = format!("{}:{}", host, port);
